@@ -222,7 +222,9 @@ func runCase(c driver.Case) driver.Result {
 		}
 	}
 	for _, w := range extraWait {
-		w()
+		if st, _, _ := quiesce.Call(w, 8*time.Second); st != quiesce.Returned {
+			return driver.Result{Verdict: driver.Inconclusive, Key: "producer-blocked-in-library", Msg: "a producer goroutine never returned from the library (hang: see C03/C14 findings) — " + target + " below " + below, Dirty: true}
+		}
 	}
 	_, settled := quiesce.Settle(3 * time.Second)
 	res.Dirty = !settled
